@@ -96,6 +96,8 @@ pub fn random_go(rng: &mut StdRng, root: &Pos, long_ok: bool) -> (GoSpec, Option
         _ => {
             g.infinite = true;
             stop = Some(*[0u64, 50, 1000, 20_000, 150_000, 400_000].choose(rng).unwrap());
+            // pondering: the same search, announced as `go ponder`; a `ponderhit` may arrive while it runs
+            if rng.gen_range(0..4) == 0 { g.ponder = true; }
         }
     }
     if rng.gen_bool(0.25) {
@@ -125,6 +127,16 @@ pub fn random_during(rng: &mut StdRng) -> Vec<Gui> {
         for _ in 0..rng.gen_range(1..=3) {
             v.push(match rng.gen_range(0..5) { 0 | 1 => Gui::NewGame, 2 => Gui::Debug(rng.gen_bool(0.5)), 3 => Gui::IsReady, _ => Gui::Uci });
         }
+    }
+    v
+}
+
+/// `random_during`, plus a `ponderhit` somewhere among them when the search was started with `go ponder`
+pub fn during_for(go: &GoSpec, rng: &mut StdRng) -> Vec<Gui> {
+    let mut v = random_during(rng);
+    if go.ponder && rng.gen_bool(0.8) {
+        let at = rng.gen_range(0..=v.len());
+        v.insert(at, Gui::PonderHit);
     }
     v
 }
